@@ -4,7 +4,8 @@ from vf import gen_table as T
 from vf import oracles as O
 from vf import refderive as R
 from vf import refsmiles
-from vf.core import Fail, Result
+from vf.core import Fail, Result, call
+import selfies as sf
 
 ID = "C18"
 LEVEL = "exploration"
@@ -95,8 +96,24 @@ def evaluate(case):
         b = O.dec_outcome(sl, compatible=True)
         if b != ref:
             fail = Fail("compat:legacy_not_equivalent", legacy=sl[:300], modern=sm[:300], want=ref, got=b, table=spec)
+    if fail is None and case.get("attr") and ref[0] == "ok":
+        # 'returns exactly what decoder(x) returns' also holds for the (string, attribution) pair of attribute=True
+        def attributed(x, **kw):
+            r = call(sf.decoder, x, attribute=True, expected=(sf.DecoderError,), **kw)
+            if r[0] != "ok":
+                return r[:2]
+            try:
+                return ("ok", r[1][0], [[a.index, a.token, [[q.index, q.token] for q in (a.attribution or [])]] for a in r[1][1]])
+            except Exception:  # noqa
+                return ("shape", repr(r[1])[:100])
+        a0 = attributed(sm)
+        a1 = attributed(sm, compatible=True)
+        if a0 != a1:
+            fail = Fail("compat:changes_attributed_result_of_modern_string", modern=sm[:300], plain=str(a0)[:300], compatible=str(a1)[:300])
     classes = []
     nontrivial = False
+    if case.get("attr"):
+        classes.append("attribute_flag")
     if fail is None:
         # without the flag: rejected exactly when a legacy symbol is reached
         try:
@@ -154,7 +171,7 @@ def gen_case(ch):
         l = legacy_of(ch, t) if p_leg and ch.bool(p_leg) else None
         modern.append(t)
         legacy.append(l if l is not None else t)
-    return dict(table=spec, modern=modern, legacy=legacy)
+    return dict(table=spec, modern=modern, legacy=legacy, attr=ch.bool(30))
 
 
 def shard(ctx):
